@@ -18,6 +18,7 @@ from __future__ import annotations
 import ast
 import copy
 import inspect
+import itertools
 import os
 import shutil
 import tempfile
@@ -146,6 +147,10 @@ def derived_invalid(kind):
         for j in range(1, n - 1):
             add(".".join(seg[:j] + seg[j + 1:]), f"dropped-segment-{j}", k)
         add(k + ".foo", "extended", k)
+        # a spurious component inserted before the last one (the last component exists on the object before it)
+        add(".".join(seg[:-1] + ["typo", seg[-1]]), "inserted-segment", k)
+        if seg[0] == "pipeline" and seg[-1] == "enabled":
+            add(".".join(seg[:-1] + ["argument", "enabled"]), "inserted-segment", k)
         if seg[0] == "detector":
             for sec in SECTIONS:
                 if sec != seg[1] and seg[2] not in fields[sec]:
@@ -702,6 +707,13 @@ def entry_cases(tier):
             for mod in (("deeper-key", "mutating-model") if text == "ld" else ("item-key", "mutating-model")):
                 cases.append({"part": "entry", "ep": "textalias", "det": "ccd", "key": "pipeline.photon_collection.p1.arguments." + text,
                               "kcls": "valid", "text": text, "where": where, "mod": mod})
+    # several keys swept together, two of them with the same last component ('i' of p1 and q1) and a detector field, in every
+    # declaration order: each key must receive ITS values (each run's models are compared with the run's element)
+    for order in itertools.permutations(range(3)):
+        for ex in ("seq", "dask"):
+            for mode in ("product", "sequential"):
+                cases.append({"part": "entry", "ep": "multisweep", "det": "ccd", "key": "pipeline.photon_collection.p1.arguments.i",
+                              "kcls": "valid", "order": list(order), "exec": ex, "mode": mode})
     # overrides combined with the calibration mode (valid keys must reach every evaluated pipeline, invalid ones must
     # be refused before the first evaluation)
     for key, kcls in (("detector.environment.temperature", "valid"), ("pipeline.charge_collection.cm.arguments.i", "valid"),
@@ -738,7 +750,7 @@ def entry_cases(tier):
             c["target"] = ("running-mode" if c["key"].startswith("calibration") else
                            "detector-field" if c["key"].startswith("detector") else "model-argument")
             continue
-        if c["ep"] in ("dupname", "nested", "rerun", "textalias"):
+        if c["ep"] in ("dupname", "nested", "rerun", "textalias", "multisweep"):
             c["target"] = "model-argument"
             continue
         src = c["key"] if c["kcls"] in ("valid", "disabled-model") else next(
@@ -989,6 +1001,8 @@ def run_entry(case):
             outcome = _run_textalias(case, bad)
         elif ep == "override-cal":
             outcome = _run_override_cal(case, bad)
+        elif ep == "multisweep":
+            outcome = _run_multisweep(case, bad)
         elif ep == "dupname":
             outcome = _run_sweep(case, det, pipe, before, bad)
         elif ep == "override":
@@ -1195,6 +1209,68 @@ def _run_sweep(case, det, pipe, before, bad):
                 bad("value-not-applied", f"no run of model {seg[2]} received {seg[4]}={v!r}; received {recv}")
                 break
     return ["swept", len(trace)]
+
+
+def _seen_temperature(detector, **kw):
+    """probe: like cprobes.plain, additionally records the detector temperature the run sees"""
+    probes.TRACE.append({"name": detector.current_running_model_name, "kw": probes.tagged(kw), "det": id(detector),
+                         "step": int(detector.pipeline_count), "temperature": float(detector.environment.temperature)})
+
+
+def _run_multisweep(case, bad):
+    import dask
+    import pyxel
+    from pyxel.observation import Observation, ParameterValues
+
+    s = _s()
+    keys = ["pipeline.photon_collection.p1.arguments.i", "detector.environment.temperature",
+            "pipeline.charge_generation.q1.arguments.i"]
+    values = [[11 + s, 12 + s], [210.0 + s, 220.0 + s], [31 + s, 32 + s]]
+    order = case["order"]
+    det = make_detector("ccd")
+    pipe = mk.pipeline({"photon_collection": [("props.c08_dotted_keys._seen_temperature", "p1", {"i": 3 + s}, True)],
+                        "charge_generation": [("props.c08_dotted_keys._seen_temperature", "q1", {"i": 7 + s}, True)]})
+    cfg = {"p1": 3 + s, "T": 100.0 + s, "q1": 7 + s}
+    params = [ParameterValues(key=keys[j], values=list(values[j])) for j in order]
+    probes.reset()
+    try:
+        with dask.config.set(scheduler="synchronous"):
+            obs = Observation(parameters=params, mode=case["mode"], readout=mk.readout([1.0]), with_dask=(case["exec"] == "dask"))
+            res = pyxel.run_mode(obs, det, pipe, with_inherited_coords=True)
+            for node in res.subtree:
+                node.to_dataset().load()
+    except Exception as e:  # noqa: BLE001
+        bad("valid-sweep-raised", f"sweeping {[keys[j] for j in order]} raised {type(e).__name__}: {str(e)[:200]}")
+        return ["raised"]
+    trace = list(probes.TRACE)
+    runs = []
+    for a, b in zip(trace[0::2], trace[1::2]):
+        if a["name"] != "p1" or b["name"] != "q1":
+            bad("wrong-models-ran", f"model calls are not (p1, q1) pairs: {[t['name'] for t in trace][:12]}")
+            return ["structure"]
+        runs.append((_untag(a["kw"]).get("i"), a["temperature"], _untag(b["kw"]).get("i")))
+    slot = {0: 0, 1: 1, 2: 2}
+    if case["mode"] == "product":
+        want = set()
+        for combo in itertools.product(*[values[j] for j in order]):
+            el = [cfg["p1"], cfg["T"], cfg["q1"]]
+            for j, v in zip(order, combo):
+                el[slot[j]] = v
+            want.add(tuple(float(x) for x in el))
+    else:
+        want = set()
+        for j in order:
+            for v in values[j]:
+                el = [cfg["p1"], cfg["T"], cfg["q1"]]
+                el[slot[j]] = v
+                want.add(tuple(float(x) for x in el))
+    got = {tuple(float(x) for x in r) for r in runs}
+    if not want <= got or (got - want and case["exec"] != "dask") or len(got - want) > 0:
+        foreign = sorted(got - want)[:2]
+        missing = sorted(want - got)[:2]
+        bad("value-not-applied", f"swept keys (declaration order) {[keys[j] for j in order]}: runs received (p1.i, temperature, "
+            f"q1.i) combinations {foreign} that were not requested; requested but never seen: {missing}")
+    return ["swept", len(runs)]
 
 
 def _run_calib(case, det, pipe, before, bad, tmp):
